@@ -92,6 +92,7 @@ func runC11(c *Ctx) {
 	c.rule("D2", "every kind is listed in IsCommonError and has its own case in the deserialiser", 54)
 	c.rule("D3", "Errorf: one %w, first, bound to the target kind after ConvertContextError (ErrUnknown when nil); WrapError: a cancellation/deadline cause replaces the target kind", 3)
 	c.rule("D17", "WrapError looks at the cause on every path: the test Any(ConvertContextError(original), ErrTimeout, ErrCancelled) dominates every construction of the result, whatever the target is", 1)
+	c.c11ConditionsRecognisedOnEveryPlatform()
 	c.contextConverterGoesByIdentity("D18", "every constructor and converter starts with this call: an error whose description merely mentions a cancellation is reclassified, and the wrong kind survives serialisation")
 	c.rule("D4", "converters normalise context errors first; a pass-through case for ErrTimeout/ErrCancelled precedes every re-classifying case", 5)
 	c.rule("D6", "deserialisation re-joins every element after the kind into the reason: loop from index 1, step one, unconditional append of the (trimmed) element", 1)
@@ -1776,4 +1777,56 @@ func (c *Ctx) contextConverterGoesByIdentity(rule, consequence string) {
 		}
 	})
 	c.check(rets > 0 && bad == "", rule, fname(f)+"/by-identity-and-nil-only-for-nil", c.pos(f.Pos()), "nil only for nil; the context kinds only for errors that are the context errors", bad+" — "+consequence)
+}
+
+// c11ConditionsRecognisedOnEveryPlatform (D19): "the filesystem, process and I/O error converters map each backend condition
+// to one stable kind". A condition the converters recognise by what the backend says (CorrespondTo(err, "not supported"))
+// is the same condition on every platform: the test is not made only where a platform predicate answered true. (A test
+// for an error *value* that exists on one platform only — errNotSupportedByWindows — may be.)
+func (c *Ctx) c11ConditionsRecognisedOnEveryPlatform() {
+	c.rule("D19", "in the converters (Convert…Error) a condition recognised by the error's description is tested on every platform: no such test is evaluated only on the true side of a platform predicate (IsWindows(), runtime.GOOS == …)", 1)
+	isPlatformPredicate := func(v ssa.Value) bool {
+		if cl, ok := v.(*ssa.Call); ok {
+			if g := staticCallee(&cl.Call); g != nil {
+				switch g.Name() {
+				case "IsWindows", "IsLinux", "IsMac", "IsDarwin", "IsUnix":
+					return true
+				}
+			}
+		}
+		if bo, ok := v.(*ssa.BinOp); ok {
+			for _, o := range []ssa.Value{bo.X, bo.Y} {
+				if k, isK := constString(o); isK && (k == "windows" || k == "linux" || k == "darwin") {
+					return true
+				}
+			}
+		}
+		return false
+	}
+	n := 0
+	for _, sp := range c.SSAPkgs {
+		if !strings.HasPrefix(sp.Pkg.Path(), modPath) {
+			continue
+		}
+		for _, f := range c.srcFuncs(shortPkg(sp.Pkg.Path())) {
+			name := outermost(f).Name()
+			if f.Blocks == nil || !strings.HasPrefix(name, "Convert") && !strings.HasPrefix(name, "convert") || !strings.Contains(name, "Error") {
+				continue
+			}
+			allInstrs(f, func(in ssa.Instruction) {
+				cl, ok := in.(*ssa.Call)
+				if !ok || !strings.HasSuffix(calleeFull(&cl.Call), "commonerrors.CorrespondTo") {
+					return
+				}
+				n++
+				key := fname(outermost(f)) + "/described-condition-on-every-platform"
+				if n > 1 {
+					key += "#" + strconv.Itoa(n)
+				}
+				c.FuncsSeen[fname(outermost(f))] = true
+				c.check(!onBoolSide(cl, true, isPlatformPredicate), "D19", key, c.ipos(cl), "the test by description is made whatever the platform",
+					"the condition is recognised by its description only where a platform predicate answered true: on the other platforms the same backend condition (`operation not supported`: ENOTSUP from chown, link or xattr on a filesystem that lacks them) gets no kind at all, falls through and is later labelled 'unexpected' — the kind of one condition depends on the platform, and the wrong one survives serialisation")
+			})
+		}
+	}
 }
